@@ -565,7 +565,13 @@ func parseEMLAttachmentEmbed(contentDisposition []string, multiPart *multipart.P
 	cdType, optional := parseMultiPartHeader(contentDisposition[0])
 	filename := "generic.attachment"
 	if name, ok := optional["filename"]; ok {
-		filename = name[1 : len(name)-1]
+		// the parameter value is a quoted-string or a token
+		if len(name) >= 2 && strings.HasPrefix(name, `"`) && strings.HasSuffix(name, `"`) {
+			name = name[1 : len(name)-1]
+		}
+		if name != "" && name != `"` {
+			filename = name
+		}
 	}
 
 	var dataReader io.Reader
